@@ -317,7 +317,8 @@ impl MemoryPool {
     }
 
     fn update_stats_on_alloc(&self, from_pool: bool) {
-        if let Ok(mut stats) = self.stats.try_write() {
+        // blocking write: a contended try_write silently skipped the update and `allocated` drifted
+        if let Ok(mut stats) = self.stats.write() {
             if !from_pool {
                 stats.allocated += self.config.chunk_size as u64;
             }
@@ -325,7 +326,7 @@ impl MemoryPool {
     }
 
     fn update_stats_on_dealloc(&self, to_pool: bool) {
-        if let Ok(mut stats) = self.stats.try_write() {
+        if let Ok(mut stats) = self.stats.write() {
             if !to_pool {
                 stats.allocated = stats
                     .allocated
